@@ -402,6 +402,102 @@ func abandonedCloseScenario(client bool, flate int) (string, string) {
 	return "", ""
 }
 
+// headerScratchScenario: a frame header of a streamed message straddles a flush of the 4096-byte write buffer and the transport
+// blocks there; meanwhile the (one permitted) reader decodes an incoming frame whose header has an extended length and a mask
+// key. Reader and writer work concurrently by right: what the writer emits after the transport resumes must still be its own
+// header, and the reader must get the peer's message.
+func headerScratchScenario(client bool) (string, string) {
+	a, b := newPipe()
+	gate := make(chan struct{}, 64)
+	a.writeGate = gate
+	c := websocket.VerifNewConn(a, client, websocket.VerifCopts{}, 0)
+	peer := newRawPeer(b, !client)
+	defer b.Close()
+	defer c.CloseNow()
+	desc := fmt.Sprintf("frame header straddling a flush while the reader decodes a header, client=%v", client)
+	bg, cancel := context.WithTimeout(context.Background(), 15*time.Second)
+	defer cancel()
+	type rres struct {
+		data []byte
+		err  error
+	}
+	readRet := make(chan rres, 1)
+	go func() {
+		_, d, err := c.Read(bg)
+		readRet <- rres{d, err}
+	}()
+	w, err := c.Writer(bg, websocket.MessageBinary)
+	if err != nil {
+		return "writer-failed", desc + ": " + err.Error()
+	}
+	// frame 1 leaves exactly two free bytes in the write buffer: header 2+2 (+4 key for a client) + payload
+	hdr := 4
+	if client {
+		hdr = 8
+	}
+	chunk1 := taggedMsg(0, 0, 4094-hdr-16)
+	chunk2 := taggedMsg(0, 1, 300)
+	if _, err := w.Write(chunk1); err != nil {
+		return "first-chunk-failed", desc + ": " + err.Error()
+	}
+	wret := make(chan error, 1)
+	go func() {
+		_, err := w.Write(chunk2) // its header's first two bytes fill the buffer; the flush blocks at the gate
+		if err == nil {
+			err = w.Close()
+		}
+		wret <- err
+	}()
+	time.Sleep(40 * time.Millisecond)
+	incoming := taggedMsg(7, 7, 400) // 16-bit extended length, masked when the library is the server
+	peer.writeFrame(RawFrame{Fin: true, Op: 2, Payload: incoming})
+	var got rres
+	select {
+	case got = <-readRet:
+	case <-time.After(3 * time.Second):
+		return "read-stuck", desc + ": the reader did not return the peer's message"
+	}
+	for i := 0; i < 32; i++ {
+		gate <- struct{}{}
+	}
+	select {
+	case err := <-wret:
+		if err != nil {
+			return "write-failed", desc + ": " + err.Error()
+		}
+	case <-time.After(3 * time.Second):
+		return "write-stuck", desc + ": the writer did not finish after the transport resumed"
+	}
+	if got.err != nil || !bytes.Equal(got.data, incoming) {
+		return "read-returned-wrong-message", fmt.Sprintf("%s: the reader returned %d bytes, err=%v, while a frame header of the writer was in flight", desc, len(got.data), got.err)
+	}
+	peerDone := make(chan struct{})
+	go func() {
+		defer close(peerDone)
+		for {
+			if _, err := peer.readFrame(500 * time.Millisecond); err != nil {
+				return
+			}
+		}
+	}()
+	<-peerDone
+	c.CloseNow()
+	peer.mu.Lock()
+	trace := append([]RawFrame(nil), peer.frames...)
+	peer.mu.Unlock()
+	var data []byte
+	for _, f := range trace {
+		if f.Op <= 2 {
+			data = append(data, f.Payload...)
+		}
+	}
+	want := append(append([]byte(nil), chunk1...), chunk2...)
+	if rest := peer.leftover(); len(rest) > 0 || !bytes.Equal(data, want) {
+		return "emitted-stream:frame-header-corrupted", fmt.Sprintf("%s: the peer decoded %d frames carrying %d bytes (want %d) and %d undecodable bytes; trace ops %s", desc, len(trace), len(data), len(want), len(rest), opsOf(trace))
+	}
+	return "", ""
+}
+
 // reencode: checkConformance works on bytes; rebuild the byte stream from the parsed frames.
 func reencode(tr []RawFrame, client bool) []byte {
 	var b []byte
@@ -492,6 +588,16 @@ func runC05(ctx *runCtx) {
 			if sh != "" {
 				rep.violate(Violation{Kind: "property", Shape: sh, What: w, Replay: map[string]interface{}{"scenario": "abandoned-close", "client": client, "flate": fl}})
 			}
+		}
+	}
+	// reader and writer inside header code at the same moment
+	for _, client := range []bool{false, true} {
+		client := client
+		sh, w := guarded(40*time.Second, func() (string, string) { return headerScratchScenario(client) })
+		rep.eval(fmt.Sprintf("scenario/header-scratch/%v", client))
+		rep.count("scenario:header-scratch")
+		if sh != "" {
+			rep.violate(Violation{Kind: "property", Shape: sh, What: w, Replay: map[string]interface{}{"scenario": "header-scratch", "client": client}})
 		}
 	}
 	// the channel mutex itself against WS.Model.Mu (the tie of WS.Props.C05Mu)
